@@ -111,7 +111,16 @@ def handle(f):
             outs = H.permute(xs) if f[4] == "permute" else H.poseidon_hash(xs)
         except Exception as e:
             return f"{cid}|err:{type(e).__name__}"
-        return f"{cid}|{','.join(str(x.value) for x in outs)}|" + trace_report(p, outs)
+        rep = f"{cid}|{','.join(str(x.value) for x in outs)}|" + trace_report(p, outs)
+        if f[4] != "permute":
+            # the caller's list is the caller's: it must be unchanged, and hashing the SAME list object again gives the same digest
+            n0 = len(ints(f[5]))
+            try:
+                again = ",".join(str(x.value) for x in H.poseidon_hash(xs))
+            except Exception as e:
+                again = "err:" + type(e).__name__
+            rep += f"|inlen={len(xs)}/{n0}|again={again}"
+        return rep
     if tag == "PAD":
         if H is None:
             return f"{cid}|err:{H_ERR}"
